@@ -39,9 +39,10 @@ MANIFEST_ENTRY = dict(
          'input; levels 1-2 quick, 1-4 thorough) are judged by Compat.tla: width = model width, radixes equal, every non-placeholder '
          'gate native, every pair of a multi-qudit gate coupled.  (2) MachineModel.is_compatible(circuit[, placement]) is compared '
          'with the same definition on an exhaustively enumerated small space (all graphs on 3 qudits x op lists of length <= 2 x all '
-         'placements x 3 gate sets) and on seeded random triples up to 5 qudits.  (3) Pipeline.tla: the workflow trees that '
+         'placements x 3 gate sets; length-2 lists sampled in the quick tier) and on seeded random triples up to 5 qudits.  (3) Pipeline.tla: the workflow trees that '
          'build_workflow() really builds for levels 1-4 and the four input kinds are interpreted over an abstract circuit record '
-         '(width class, fits, wide gate, multi-/single-qudit gates native, coupled, folded, connectivity extracted, measurements) with '
+         '(width class, fits, wide gate, multi-/single-qudit gates native, coupled, folded, connectivity extracted, measurements; 6 gate-set '
+         'classes, 3 of them in the quick tier) with '
          'one contract per pass; TLC checks no run gets stuck, every run ends, and lists every terminal record that is not Executable; '
          'each such design-level counterexample is replayed on the real compile() and judged by (1).  Every real run\'s recorded pass and '
          'predicate sequence is validated against the transcription of compile.py and the contracts (reported as DRIFT if it disagrees).',
@@ -49,7 +50,10 @@ MANIFEST_ENTRY = dict(
          'that wraps Workflow.run and PassPredicate.__call__ from outside); the classification of a gate as placeholder.  The pass '
          'contracts in PipelineDefs.tla are assumptions about passes checked elsewhere (C08-C11) and hold "if the search succeeds"; '
          'gate sets without parameterised single-qudit gates are exempt from the single-qudit clause in the model (the workflow itself '
-         'warns).  Vendor models and qutrit models are not explored here (qutrit circuits crash earlier: see C01).',
+         'warns).  Vendor models and qutrit models are not explored here (C01 / C03 compile qutrit inputs).  Every run ends with an oracle '
+         'self-test: corrupted copies of an accepted (output, model) observation -- narrower output, changed radix, renamed gate, entangler '
+         'moved to uncoupled qudits, flipped is_compatible answer -- must each be rejected by Compat.tla with its clause.  The recorded '
+         'traces are also checked (DRIFT layer) for the bookkeeping of PassData.placement / initial_mapping / final_mapping around every pass.',
     ref='DESIGN.md section 4 / C02',
 )
 
